@@ -206,7 +206,7 @@ def r2_output_table(ctx):
             r.missing("LitWrapper::" + name)
             continue
         t = flatp(show(cands[0].body))
-        if t == w:
+        if same(t, w):
             r.inst("LitWrapper::" + name, w)
         else:
             r.viol("R2:LitWrapper::" + name, "is `%s`, expected the identity `%s`" % (t, w), file=f)
@@ -308,7 +308,7 @@ def r4_scoping(ctx):
     for name, w in (("get_keys", "{LocaleKeys::from_localeself.get_locale}"), ("get_keys_untracked", "{LocaleKeys::from_localeself.get_locale_untracked}")):
         fn = ast.fn("leptos_i18n/src/context.rs", name, impl_self="I18nContext")
         t = flatp(show(fn.body)) if fn else ""
-        if t == w:
+        if same(t, w):
             r.inst("I18nContext::" + name, w)
         else:
             r.viol("R4:I18nContext::" + name, "is `%s`" % t, file="leptos_i18n/src/context.rs")
